@@ -4,14 +4,14 @@ from __future__ import annotations
 
 import ast
 
-from ..cfg import walk_no_nested
+from ..cfg import Node, walk_no_nested
 from ..dataflow import bind_call, origins
-from ..decide import Decider, role_of
+from ..decide import Decider, expand_expr, role_of
 from ..loader import AnalysisError, FuncInfo
 from ..report import Ctx
-from .common import all_guards, direct_guards, norm, where
+from .common import all_guards, direct_guards, guard_atoms, norm, where
 from .render import get_model
-from .rewrite import _isinstance_tests
+from .rewrite import _class_names, _isinstance_tests
 
 
 def check_cleanup_guards(ctx: Ctx) -> None:
@@ -30,29 +30,53 @@ def check_cleanup_guards(ctx: Ctx) -> None:
                 continue
             n_st += 1
             tests = _isinstance_tests(ctx, fi, n)
-            guards = [(b, lab) for b, lab in all_guards(prog, fi, n) if b.kind == "test"]
             heading = any(lab == "T" and any(c.endswith("Heading") for c in cls) and all(c.endswith("Heading") for c in cls) for o, cls, lab in tests)
-            obj = norm(tg.value)
-            # the child that is unwrapped must be the *only* child of the node that is re-linked, and be strong emphasis
-            def _is_first_child(o: str) -> bool:
-                if o == f"{obj}.children[0]":
-                    return True
-                for d in flow.defs:  # alias: first = element.children[0]
-                    if d.var == o and d.kind == "assign" and d.value is not None and norm(d.value) == f"{obj}.children[0]":
-                        return True
-                return False
 
-            strong = any(lab == "T" and cls == ["marko.inline.StrongEmphasis"] and _is_first_child(o) for o, cls, lab in tests)
-            single = False
-            for b, lab in guards:
-                if lab != "T":
-                    continue
-                for leaf in ([b.ast] if not isinstance(b.ast, ast.BoolOp) else list(b.ast.values)):
-                    if isinstance(leaf, ast.Compare) and isinstance(leaf.ops[0], ast.Eq) and norm(leaf.left) == f"len({obj}.children)" \
-                            and isinstance(leaf.comparators[0], ast.Constant) and leaf.comparators[0].value == 1:
-                        single = True
-            # the value stored is the children of that strong node (content is kept, only the wrapper goes)
-            val_ok = isinstance(n.ast.value, ast.Attribute) and n.ast.value.attr == "children"
+            def canon(e: ast.AST, at: Node) -> str:
+                return norm(expand_expr(prog, fi, e, at))
+
+            obj = canon(tg.value, n)
+            # the value stored is the children of a node Y (content is kept, only the wrapper goes)
+            val = n.ast.value
+            val_ok = isinstance(val, ast.Attribute) and val.attr == "children"
+            strong = single = False
+            if val_ok:
+                y = val.value
+                y_forms = {norm(y), canon(y, n)}
+                atoms = guard_atoms(prog, fi, n)
+                # Y is strong emphasis
+                for a, truth, b in atoms:
+                    if truth and isinstance(a, ast.Call) and isinstance(a.func, ast.Name) and a.func.id == "isinstance" and len(a.args) == 2 \
+                            and ({norm(a.args[0]), canon(a.args[0], b)} & y_forms) and _class_names(ctx, fi, a.args[1]) == ["marko.inline.StrongEmphasis"]:
+                        strong = True
+
+                def len_is_one(at: Node) -> bool:
+                    for a, truth, b in guard_atoms(prog, fi, at):
+                        if truth and isinstance(a, ast.Compare) and len(a.ops) == 1 and isinstance(a.ops[0], ast.Eq) \
+                                and isinstance(a.comparators[0], ast.Constant) and a.comparators[0].value == 1 \
+                                and canon(a.left, b) == f"len({obj}.children)":
+                            return True
+                    return False
+
+                # Y is the only child of the node that is re-linked: every value Y can hold here is X.children[0], taken where
+                # len(X.children) == 1 is known (None is excluded by the isinstance test above)
+                cands: list[tuple[ast.AST, Node]] = []
+                if isinstance(y, ast.Name):
+                    for d in flow.reaching(n, y.id):
+                        if d.kind == "assign" and d.value is not None:
+                            cands.append((d.value, d.node))
+                        else:
+                            cands.append((ast.Constant(value=Ellipsis), d.node))
+                else:
+                    cands.append((y, n))
+                ok_all = bool(cands)
+                for v, at in cands:
+                    if isinstance(v, ast.Constant) and v.value is None:
+                        continue
+                    if canon(v, at) == f"{obj}.children[0]" and (len_is_one(at) or len_is_one(n)):
+                        continue
+                    ok_all = False
+                single = ok_all and strong
             ctx.ob("R-CLEANUP", f"{fi.qual} :: {norm(n.ast)}", heading and strong and single and val_ok,
                    "a cleanup may only re-link a heading whose *single* child is strong emphasis to that child's own children "
                    f"(heading test: {heading}, single-child test: {single}, strong test: {strong}, keeps content: {val_ok})", where(fi, n))
